@@ -13,7 +13,7 @@ RULE = ("The real CLI cmd_send.send() and cmd_receive.receive() run end to end i
         "without surrogates incl. quotes/newlines/control/wide chars); a file of size 0, 1, 16383..16385, "
         "2*16384+-1 or random <=200 KiB; a directory tree (depth <=3, empty dirs, 0-byte files, names with "
         "spaces, leading dots/dashes, Unicode, 200 chars). Code set or allocated, listeners on/off. Fault: none; "
-        "cut the sender->receiver data stream after byte k; flip byte k; cut the link when the acknowledgement is "
+        "cut the sender->receiver data stream after byte k; flip byte k; replace a record by a byte-exact copy of the previous one; cut the link when the acknowledgement is "
         "written; the receiver's acknowledgement carries a wrong / empty / null hash. Faults are applied only to "
         "the SELECTED transit link once both ends are in 'records' state. Oracle: both report success => received "
         "tree/file is byte-for-byte the source (same relative paths, empty dirs present), text equals the printed "
@@ -25,6 +25,11 @@ ASSUMPTIONS = ["simulated mailbox/TCP layers per DESIGN 2.1", "permissions and m
                "--verify, Tor and interactive code entry are outside the driver"]
 
 NAMES = ["a", "file.txt", "with space", ".hidden", "-dash", "ünï", "日本", "x" * 200, "UPPER", "a.b.c", "tmp.tmp"]
+# names/text that Unicode normalisation would change (decomposed accents, OHM SIGN, ANGSTROM SIGN, jamo,
+# compatibility ligature): a transfer must reproduce them code point for code point
+NAMES += ["e\u0301cole", "\u2126hm", "\u212bng", "\u1112\u1161\u11ab", "o\ufb03ce"]
+ODD_TEXT = ["e\u0301", "\u2126 \u212b", "\u1112\u1161\u11ab", "o\ufb03ce \u00b2", "it's \"quoted\"\n\ttab", "\u00fc\u00f1\u00ed \u2603 \x07",
+            "back\\slash", "'", '"', "\\n"]
 
 
 @st.composite
@@ -53,12 +58,12 @@ def cases(draw, tier="quick"):
         c["dname"] = draw(st.sampled_from(["d", "dir with space", "ünï-dir", ".hid"]))
     else:
         c["text"] = draw(st.one_of(st.text(alphabet=st.characters(blacklist_categories=("Cs",)), min_size=1, max_size=40),
-                                   st.sampled_from(["it's \"quoted\"\n\ttab", "üñí ☃ \x07", "back\\slash", "'", '"', "\\n"])))
+                                   st.sampled_from(ODD_TEXT)))
     c["code"] = draw(st.sampled_from(["set", "alloc"]))
     c["listen"] = draw(st.sampled_from([[True, True], [True, False], [False, True], [False, False]]))
     c["relay"] = draw(st.booleans()) or c["listen"] == [False, False]
-    c["fault"] = draw(st.sampled_from(["none", "none", "cut", "flip", "ack-cut", "ack-wrong", "ack-empty", "ack-null",
-                                       "ack-nohash"]))
+    c["fault"] = draw(st.sampled_from(["none", "none", "cut", "flip", "replay", "replay", "ack-cut", "ack-wrong", "ack-empty",
+                                       "ack-null", "ack-nohash"]))
     c["fault_at"] = draw(st.one_of(st.integers(0, 200), st.integers(0, 40000), st.integers(0, 220000)))
     if c["kind"] == "file":
         c["fault_at"] %= (c["size"] + 60)          # inside (or just past) the ciphertext stream of this payload
@@ -192,6 +197,7 @@ def run_case(c):
         carried = collections.Counter()
         faulted = [None]
         ack_patched = [False]
+        replay_patched = [False]
         n = 0
         hang = False
         while n < 30000:
@@ -225,6 +231,28 @@ def run_case(c):
                                 return orig(rec)
                             p.send_record = patched
                             ack_patched[0] = True
+            if fault == "replay" and not replay_patched[0]:
+                for l in W.net.links:
+                    for t in (l.a, l.b):
+                        p = unwrap(t.protocol)
+                        if t.owner is ns and isinstance(p, transit.Connection) and p.state == "records":
+                            orig = p.send_record
+                            frames = []
+
+                            def patched_s(rec, orig=orig, t=t, frames=frames):
+                                before_len = len(t.outq)
+                                r_ = orig(rec)
+                                fr = bytes(t.outq[before_len:])
+                                frames.append(fr)
+                                k = len(frames) - 1
+                                # a party on the path replaces record k by a byte-exact copy of record k-1
+                                if faulted[0] is None and k >= 1 and len(frames[k - 1]) == len(fr) and \
+                                        frames[k - 1] != fr and k >= 1 + (c["fault_at"] % 3):
+                                    t.outq[before_len:] = frames[k - 1]
+                                    faulted[0] = "replay"
+                                return r_
+                            p.send_record = patched_s
+                            replay_patched[0] = True
             ev = W.enabled()
             if not ev:
                 nt = W.next_timer()
@@ -303,7 +331,7 @@ def run_case(c):
                 diff = sorted(set(src.items()) ^ set(final.items()))[:4]
                 res.violate("exact", "both sides report success but the received tree differs: %r; %s" % (diff, info),
                             input_class="not-byte-exact:%s" % ("missing-empty-dir" if any(v == "dir" for _, v in diff) else "content"))
-        if faulted[0] in ("cut", "flip"):
+        if faulted[0] in ("cut", "flip", "replay"):
             if s_ok or r_ok:
                 res.violate("nofalse", "data stream fault but success was reported (sender ok=%s receiver ok=%s); %s" % (
                     s_ok, r_ok, info), input_class="success-despite-data-fault")
